@@ -311,7 +311,8 @@ func loopInvariantTerm(t string) bool {
 		switch {
 		case strings.HasPrefix(id, "p_"), strings.HasPrefix(id, "fv_"), strings.HasPrefix(id, "gref_"),
 			strings.HasPrefix(id, "sub_"), strings.HasPrefix(id, "fn_"), strings.HasPrefix(id, "let_"),
-			id == "if_val", id == "if_tag", id == "sl_ref", id == "sl_len", id == "sl_off", id == "sl_cap":
+			id == "if_val", id == "if_tag", id == "sl_ref", id == "sl_len", id == "sl_off", id == "sl_cap",
+			id == "select", strings.HasSuffix(id, "@0"):
 		default:
 			return false
 		}
